@@ -341,6 +341,10 @@ def run_check(prop, tier, seed, repo, tmp, replay, scale, t0):
     for m in inconclusive[:20]:
         print(f"INCONCLUSIVE: property={prop} {m}")
     os.makedirs(os.path.join(VERIF, "replays"), exist_ok=True)
+    if not replay:
+        for fn in os.listdir(os.path.join(VERIF, "replays")):
+            if fn.startswith(prop + "-"):
+                os.unlink(os.path.join(VERIF, "replays", fn))
     printed = set()
     for key, desc, wit, step in new:
         if key in printed or len(printed) >= 12:
